@@ -281,6 +281,20 @@ def reroute(g, key):
                 h2 = type(g).from_networkx(x)
                 route = 'networkx-int-labels'
             else:
+                if names and len(names) <= 8 and es and all(t == '->' for _, _, t in es) and not hasattr(g, 'get_minimal_graph'):
+                    # the same structure under integer labels whose numeric and text orders differ (2 < 9 < 10 < 100 as numbers,
+                    # '10' < '100' < '2' < '9' as text), nodes entered in yet another order: the constructor must give each
+                    # node the edges of ITS label
+                    labels = [9, 10, 2, 100, 1, 33, 8, 11][:len(names)]
+                    lab = dict(zip(names, labels))
+                    x = networkx.DiGraph()
+                    x.add_nodes_from(lab[n_] for n_ in (names[1:] + names[:1]))
+                    x.add_edges_from((lab[s_], lab[d_]) for s_, d_, _ in es)
+                    hx_ = type(g).from_networkx(x)
+                    want = (sorted(str(v) for v in labels), sorted((str(lab[s_]), str(lab[d_]), '->') for s_, d_, _ in es))
+                    if shape(hx_) != want:
+                        _FAILURES.append(f'from_networkx on integer labels {sorted(labels)} with edges '
+                                         f'{sorted((lab[s_], lab[d_]) for s_, d_, _ in es)[:6]} built the edges {shape(hx_)[1][:6]}')
                 h2 = type(g).from_dict(json.loads(json.dumps(g.to_dict())))
         else:
             h2 = type(g).from_dict(json.loads(json.dumps(g.to_dict()))) if h % 5 == 0 else g.copy()
@@ -586,6 +600,34 @@ def _stress(g, key):
                 done.append('absent-accepted!')
             except Exception:  # noqa: BLE001
                 done.append('refused-absent')
+    # 13. a refused re-typing: a non-directed edge (s, d) whose orientation s -> d would close a directed cycle (d already
+    #     reaches s); the call must raise and the edge must keep its type AND its metadata
+    if h // 199 % 2:
+        cyc = [(a, b, t) for a, b, t in all_edges if t != EdgeType.DIRECTED_EDGE and a in desc.get(b, ())]
+        if cyc:
+            a, b, t = cyc[h // 211 % len(cyc)]
+            try:
+                g.change_edge_type(a, b, EdgeType.DIRECTED_EDGE)
+                done.append('cyclic-retype-accepted!')
+                _FAILURES.append(f'change_edge_type({a!r}, {b!r}, ->) was accepted although {b!r} already reaches {a!r}')
+            except Exception:  # noqa: BLE001
+                done.append('refused-cyclic-retype')
+    # 14. (time-series) a lagged ghost is renamed to lag 0 in the keyword form (variable_name=, time_lag=0) and goes: the
+    #     new node must be the lag-0 node of the new variable
+    if is_ts and h // 223 % 2:
+        try:
+            if not any(g.node_exists(x) for x in ('zq kw lag(n=2)', 'zq kv', 'zq kv lag(n=2)')):
+                g.add_node('zq kw lag(n=2)')
+                g.replace_node('zq kw lag(n=2)', variable_name='zq kv', time_lag=0)
+                if not g.node_exists('zq kv') or g.node_exists('zq kv lag(n=2)') or g.node_exists('zq kw lag(n=2)'):
+                    _FAILURES.append("replace_node('zq kw lag(n=2)', variable_name='zq kv', time_lag=0) did not produce the "
+                                     "node 'zq kv': " + repr([x for x in g.get_node_names() if x.startswith('zq k')]))
+                for x in [x for x in g.get_node_names() if x.startswith('zq k')]:
+                    g.delete_node(x)
+                done.append('keyword-rename-to-lag-0')
+        except Exception as e:  # noqa: BLE001
+            done.append('keyword-rename-raised')
+            _FAILURES.append(f'add / keyword rename to lag 0 / delete of a fresh floating node raised {type(e).__name__}')
     if h // 13 % 2:
         done += export_abuse(g)
     return done
